@@ -93,8 +93,7 @@ def imports(tree):
                 if key in seen:
                     problems.append("duplicate import of %s%s" % ((mod + ".") if mod else "", a.name))
                 seen[key] = i
-                if first_non_import is not None and (mod in ("typing", "abc") or a.name in ("math", "typing", "abc")):
-                    problems.append("support import of %s after statement %d" % (a.name, first_non_import))
+                info[-1]["late"] = first_non_import is not None
         elif not is_doc and first_non_import is None:
             first_non_import = i
     return info, problems
